@@ -232,6 +232,17 @@ FACT = [
      ["x = self.change_compressed_axes(compressed_axes)",
       "indices = np.arange(x._compressed_shape[0], dtype=self.indptr.dtype)[idx]"],
      "Definition s_gcxs_reduce_rows (d_self d_x : dty) (rows : Z) : tarr := assign_into d_self (mkT (DInt i64) (zrange_ rows))."),
+    # _umath._get_expanded_coords_data: positions along broadcast axes (np.arange(d, dtype=intp) products) are
+    # written into `expanded_coords`, allocated in intp (alternative: the operand's coordinate dtype, which
+    # cannot hold positions of an axis grown beyond it — then the theorem breaks)
+    ("s_expanded_coords_dtype", "sparse/numba_backend/_umath.py", "_get_expanded_coords_data",
+     ["expanded_coords = np.empty((len(broadcast_shape), all_idx.shape[1]), dtype=np.intp)",
+      "all_idx = _cartesian_product(*(np.arange(d, dtype=np.intp) for d in expand_shapes))"],
+     "Definition s_expanded_coords_dtype (d : dty) : dty := DInt i64."),
+    ("s_expanded_coords_dtype", "sparse/numba_backend/_umath.py", "_get_expanded_coords_data",
+     ["expanded_coords = np.empty((len(broadcast_shape), all_idx.shape[1]), dtype=coords.dtype)",
+      "all_idx = _cartesian_product(*(np.arange(d, dtype=np.intp) for d in expand_shapes))"],
+     "Definition s_expanded_coords_dtype (d : dty) : dty := d."),
     # _calc_counts_invidx: dtype of the returned offsets / counts.  Two alternatives (the first whose
     # statements are all present is emitted): intp (current code), or the dtype of `groups` (finding D2,
     # repaired by 5f3fb78 — if it comes back the definition below changes and reduce's theorem breaks)
